@@ -576,6 +576,32 @@ class Body:
             return {"Mul": a * c, "Add": a + c, "Sub": a - c}.get(opn)
         return None
 
+    def shape(self, op, depth=0):
+        """structural shape of a value: constants, operators, and the *names* of the calls it is computed
+        from (single-definition locals are expanded; identities of variables are not part of the shape)"""
+        if op[0] == "k":
+            return ("k", op[2] if isinstance(op[2], (int, str, bool)) else "?")
+        l = op_local(op)
+        if l is None or depth > 10:
+            return ("place",)
+        if 1 <= l <= self.argc and len(op[1]) == 1:
+            return ("arg",)
+        ds = self.defs.get(l, [])
+        if len(ds) != 1:
+            return ("var",)
+        d = ds[0]
+        if d[1] == "call":
+            c = d[2]
+            return ("call", (c.o or c.d).split("::")[-1])
+        rv = d[2]
+        if rv[0] == "use":
+            return self.shape(rv[1], depth + 1)
+        if rv[0] == "cast":
+            return self.shape(rv[2], depth + 1)
+        if rv[0] == "bin":
+            return (rv[1].replace("WithOverflow", "").replace("Unchecked", ""), self.shape(rv[2], depth + 1), self.shape(rv[3], depth + 1))
+        return (rv[0],)
+
     # -- printing
     def dump(self, only_live=True, blocks=None):
         out = []
